@@ -122,7 +122,9 @@ class _Jac(LinearOperator):
         self.fcn = fcn
         self.yparam = yparam
         self.params = list(params)
-        self.objparams = fcn.objparams()
+        # a copy, so that substituting the operator's parameters does not
+        # modify the list held by the function itself
+        self.objparams = list(fcn.objparams())
         self.yout = yout
         self.v = v
         self.idx = idx
